@@ -251,6 +251,50 @@ func init() {
 					}
 				}
 			}
+			// corrupted stored value, position sweep: one flipped bit / a cut at EVERY byte position of the stored
+			// ticket value must leave the request unauthenticated (quick: evenly spaced sample + boundaries)
+			if redis {
+				sc := storeScenarios(u)[0]
+				rs0, _ := sc.setup(e)
+				_ = rs0
+				n := 0
+				for _, k := range e.redisKeys() {
+					if v, err := e.mr.Get(k); err == nil && len(v) > n {
+						n = len(v)
+					}
+				}
+				e.mr.FlushAll()
+				step := 1
+				if c.scale <= 1 {
+					step = n/24 + 1
+				}
+				for _, kind := range []string{"bitflip", "cut"} {
+					for pos := 0; pos < n; pos += step {
+						rs, _ := sc.setup(e)
+						for _, k := range e.redisKeys() {
+							val, err := e.mr.Get(k)
+							if err != nil || pos >= len(val) {
+								continue
+							}
+							bs := []byte(val)
+							if kind == "bitflip" {
+								bs[pos] ^= 1 << uint(pos%8)
+							} else {
+								bs = bs[:pos]
+							}
+							e.mr.Set(k, string(bs))
+						}
+						v := e.do(rs)
+						c.casen(fmt.Sprintf("c13|sweep|%s|%d", kind, pos), fmt.Sprintf("%d", v.Status))
+						c.count("c13:sweep:" + kind)
+						if len(v.Hits) > 0 {
+							c.violation("C13", fmt.Sprintf("request forwarded as authenticated although the stored session value was corrupted (%s at byte %d of %d)", kind, pos, n),
+								map[string]interface{}{"kind": kind, "position": pos, "length": n, "status": v.Status, "identity_seen_upstream": fmt.Sprint(v.Hits[0].Header)})
+						}
+						e.mr.FlushAll()
+					}
+				}
+			}
 			// Redis-level faults: the command itself is answered with an error, so the repository's own
 			// redis store / lock / ticket code runs on the failure (not only the code above the store interface)
 			if redis {
@@ -313,7 +357,86 @@ func init() {
 			}
 			e.close()
 		}
-		c.close([]string{"c13:faulted", "c13:no-fault", "serve:storefault:refresh", "serve:storedata:trunc5", "kind:notReady", "kind:errorPage", "redisfault:hit"})
+		// Histories (thorough tier): ONE browser session whose refresh is due on every request, 6-14 steps
+		// (request / sign-out / login again) with 0-2 random store or lock faults per step.  Every step is held to the same
+		// fail-closed clauses as the single-fault campaign; at the end the proxy must still complete a clean login.
+		if c.scale > 1 {
+			r := c.rng.fork()
+			for _, redis := range []bool{true, false} {
+				cfg := proxyCfg{Redis: redis, CookieRefresh: time.Millisecond, InjectRequest: defaultInject()}
+				e, err := newEnv(c, cfg)
+				if err != nil {
+					c.violation("HARNESS", "env: "+err.Error(), nil)
+					continue
+				}
+				e.instrument()
+				e.idp.rotateRT = true
+				scs := storeScenarios(u)
+				byName := map[string]scenario{}
+				for _, sc := range scs {
+					byName[sc.name] = sc
+				}
+				for h := 0; h < 12*c.scale; h++ {
+					b := newBrowser()
+					var trail []string
+					steps := 6 + r.intn(9)
+					for st := 0; st < steps; st++ {
+						_, has := b.jar[e.opts.Cookie.Name]
+						var sc scenario
+						var rs reqSpec
+						switch {
+						case !has:
+							sc = byName["login"]
+							_, loc := e.startLogin(b, "/after")
+							cb, _, _ := e.idp.authorize(loc, u)
+							cu, _ := url.Parse(cb)
+							rs = reqSpec{Target: cu.RequestURI(), Cookie: b.cookieHeader()}
+						case r.intn(6) == 0:
+							sc = byName["signout"]
+							rs = reqSpec{Target: e.opts.ProxyPrefix + "/sign_out?rd=/bye", Cookie: b.cookieHeader()}
+						default:
+							sc = byName["refresh"]
+							time.Sleep(2 * time.Millisecond)
+							rs = reqSpec{Target: fmt.Sprintf("/app/h%d/s%d", h, st), Cookie: b.cookieHeader()}
+						}
+						plan := map[string]string{}
+						for nf := r.intn(3); nf > 0; nf-- {
+							op := sc.ops[r.intn(len(sc.ops))]
+							k := r.pick([]string{"before", "after"})
+							if strings.HasPrefix(op, "obtain") {
+								k = "before"
+							}
+							plan[op] = k
+						}
+						trail = append(trail, fmt.Sprintf("%s%v", sc.name, plan))
+						v, real := e.serveCase(rs, &faultPlan{at: plan}, "storehist:"+sc.name)
+						if v == nil {
+							continue
+						}
+						c.count("c13:history-step")
+						before := b.clone()
+						if v.raw != nil {
+							b.apply(v.raw)
+						}
+						if sc.name == "refresh" && e.rec != nil && len(e.rec.byOp("refresh")) == 0 {
+							// the stored session was already dropped (earlier faulted step): plain unauthenticated handling
+							if len(v.Hits) > 0 && len(e.rec.byOp("load")) > 0 && e.rec.byOp("load")[0].Err {
+								c.violation("C13", "history: request forwarded although its session load failed", map[string]interface{}{"trail": trail, "response": real})
+							}
+							continue
+						}
+						e.monitorStoreFault(sc, plan, "", rs, before, v, real)
+					}
+					c.count("c13:history")
+				}
+				nb := newBrowser()
+				if lr := e.login(nb, u, "/alive"); !lr.OK {
+					c.violation("C13", "proxy cannot complete a clean login after the fault histories", nil)
+				}
+				e.close()
+			}
+		}
+		c.close([]string{"c13:faulted", "c13:no-fault", "serve:storefault:refresh", "serve:storedata:trunc5", "kind:notReady", "kind:errorPage", "redisfault:hit", "c13:sweep:bitflip", "c13:sweep:cut"})
 	})
 
 	registerSuite("idpfaults", func(c *suiteCtx) {
@@ -529,6 +652,100 @@ func init() {
 						c.count("claimfault:" + cf.name)
 					}
 				}
+				// Sweeps over the REAL token-endpoint answer (login and refresh): every strict prefix of the body
+				// (truncated JSON at every byte position) and every single-character corruption of the id_token
+				// must create / extend no session.  quick: evenly spaced sample + boundaries; thorough: every position.
+				for _, fl := range flows[:2] {
+					// learn the body length and the id_token span from one clean answer
+					var clean []byte
+					e.idp.mu.Lock()
+					e.idp.transform = func(ep string, st int, body []byte) []byte {
+						if ep == "/token" {
+							clean = append([]byte(nil), body...)
+						}
+						return body
+					}
+					e.idp.mu.Unlock()
+					rs, _ := fl.setup()
+					e.do(rs)
+					if len(clean) == 0 {
+						c.violation("HARNESS", "sweep: no token answer observed for flow "+fl.name, nil)
+						continue
+					}
+					lo := strings.Index(string(clean), `"id_token":"`)
+					hi := -1
+					if lo >= 0 {
+						lo += len(`"id_token":"`)
+						hi = lo + strings.Index(string(clean[lo:]), `"`)
+					}
+					step := 1
+					if c.scale <= 1 {
+						step = len(clean)/24 + 1
+					}
+					positions := func(from, to int) []int {
+						var ps []int
+						for k := from; k < to; k += step {
+							ps = append(ps, k)
+						}
+						for _, k := range []int{from, from + 1, to - 2, to - 1} {
+							if k >= from && k < to {
+								ps = append(ps, k)
+							}
+						}
+						return ps
+					}
+					const b64url = "ABCDEFGHIJKLMNOPQRSTUVWXYZabcdefghijklmnopqrstuvwxyz0123456789-_"
+					type sweep struct {
+						name string
+						ks   []int
+						tr   func(k int, body []byte) []byte
+					}
+					sweeps := []sweep{{"prefix", positions(0, len(clean)), func(k int, body []byte) []byte { return body[:min(k, len(body))] }}}
+					if lo >= 0 && hi > lo {
+						sweeps = append(sweeps, sweep{"idtoken-char", positions(0, hi-lo), func(k int, body []byte) []byte {
+							// same structure in every answer (fresh tokens differ only inside fixed-width fields): corrupt the k-th id_token character
+							l := strings.Index(string(body), `"id_token":"`) + len(`"id_token":"`)
+							nb := append([]byte(nil), body...)
+							if l+k < len(nb) {
+								ch := nb[l+k]
+								if i := strings.IndexByte(b64url, ch); i >= 0 {
+									nb[l+k] = b64url[i^32] // flips the most significant of the six bits: the decoded bytes always change
+								} else if ch == '.' {
+									nb[l+k] = 'A'
+								}
+							}
+							return nb
+						}})
+					}
+					for _, sw := range sweeps {
+						for _, k := range sw.ks {
+							k, sw := k, sw
+							rs, b := fl.setup()
+							e.idp.mu.Lock()
+							e.idp.transform = func(ep string, st int, body []byte) []byte {
+								if ep == "/token" {
+									return sw.tr(k, body)
+								}
+								return body
+							}
+							e.idp.mu.Unlock()
+							v := e.do(rs)
+							e.idp.mu.Lock()
+							e.idp.transform = nil
+							e.idp.mu.Unlock()
+							c.casen(fmt.Sprintf("c14|sweep|%v|%v|%s|%s|%d", redis, audClaims, fl.name, sw.name, k), fmt.Sprintf("%d", v.Status))
+							c.count("c14:sweep:" + sw.name)
+							if hasSessionSet(v, e.opts.Cookie.Name) {
+								c.violation("C14", fmt.Sprintf("%s: session created / extended from a token answer corrupted by sweep %q at position %d", fl.name, sw.name, k),
+									map[string]interface{}{"flow": fl.name, "sweep": sw.name, "position": k, "answer_length": len(clean), "status": v.Status, "cfg": fmt.Sprintf("%+v", cfg)})
+							}
+							if fl.name == "login" && len(v.Hits) > 0 {
+								c.violation("C14", "callback forwarded upstream after a corrupted token answer", map[string]interface{}{"sweep": sw.name, "position": k})
+							}
+							_ = b
+						}
+					}
+				}
 				// liveness
 				b := newBrowser()
 				lr := e.login(b, u, "/alive")
@@ -642,6 +859,6 @@ func init() {
 			}
 			srv.Close()
 		}
-		c.close([]string{"c14:faulted", "c14:clean", "idpfault:reset", "idpfault:oversized", "claimfault:aud-number", "claimfault:alg-none", "c14:short-read", "c14:keycloak"})
+		c.close([]string{"c14:faulted", "c14:clean", "idpfault:reset", "idpfault:oversized", "claimfault:aud-number", "claimfault:alg-none", "c14:short-read", "c14:keycloak", "c14:sweep:prefix", "c14:sweep:idtoken-char"})
 	})
 }
